@@ -51,7 +51,7 @@ class ReadDiscInformation(SCSICommand):
         "dac_v": [0x10, 7],
         "legacy": [0x04, 7],
         "bg_format_status": [0x03, 7],
-        "disc_type": [0x03, 8],
+        "disc_type": [0xFF, 8],
         "number_of_sessions_msb": [0xFF, 9],
         "first_track_number_in_last_session_msb": [0xFF, 10],
         "last_track_number_in_last_session_msb": [0xFF, 11],
